@@ -8,7 +8,14 @@ fn main() {
     let us: Vec<Progs> = if quick {
         vec![Progs::new(&[2, 3, 4, 6, 7], 3, 2, 2, 2), Progs::new(&[2, 3, 4], 3, 3, 1, 1), Progs::new(&[0, 1, 5, 8], 2, 2, 2, 2)]
     } else {
-        vec![Progs::new(&[0, 1, 2, 3, 4, 5, 6, 7, 8], 3, 2, 2, 2), Progs::new(&[2, 3, 4, 6, 7], 3, 3, 2, 1), Progs::new(&[2, 3, 4], 4, 3, 1, 1), Progs::new(&[2, 3, 6], 3, 4, 1, 1)]
+        vec![
+            Progs::new(&[0, 1, 2, 3, 4, 5, 6, 7, 8], 3, 2, 2, 2),
+            Progs::new(&[2, 3, 4, 6, 7], 3, 3, 2, 1),
+            Progs::new(&[2, 3, 4], 4, 3, 1, 1),
+            Progs::new(&[2, 3, 6], 3, 4, 1, 1),
+            Progs::new(&[2, 3, 4, 6, 7], 4, 3, 1, 1),
+            Progs::new(&[0, 1, 2, 3, 4, 5, 6, 7, 8], 3, 3, 1, 1),
+        ]
     };
     for u in &us {
         ctx.run_slice(Slice::new(format!("eval[{}]", u.name()), u.count(), move |i, loc| check::<B>(&u.get(i), loc)));
@@ -27,7 +34,7 @@ fn main() {
     ctx.run_slice(Slice::new(format!("structured-programs-large[sizes {:?}: {} programs, 3 patterned input vectors each]", sizes, big.len()), big.len() as u64, |i, loc| check_large::<B>(&big[i as usize].1, loc)));
     let meta = Meta {
         rule: "every diagram over the test signature (add, mul, sub 2->1; neg 1->1; copy 1->2; swapinc 2->2; const 0->1; discard 1->0; and 2->1, arities fixed by the label) within the bounds, in every numbering (the universe is closed under renumbering); classified by the reference into cyclic (must be refused), functional (acyclic, single writer, every read node written: outputs and the multiset of interpreter calls are compared for every input vector over {0,1,2,3}) and other acyclic (must return a result); run under the checked and the release-like profile; plus structured families of larger diagrams, enumerated completely for every size parameter up to the stated bound and in five numberings (fan-out/fan-in, k parallel operations, chains, stars, cycles with tails, diamonds, multiplicity k, operations whose predecessors sit at depths j and k of a chain, one node read k times)".into(),
-        bounds: "quick: <=3 nodes, <=2 operations (5-letter signature, interfaces <=2), <=3 operations (3-letter signature, interfaces <=1); thorough: full signature with <=2 operations, <=3-4 operations on <=3-4 nodes for sub-signatures".into(),
+        bounds: "quick: <=3 nodes, <=2 operations (5-letter signature, interfaces <=2), <=3 operations (3-letter signature, interfaces <=1); thorough: full signature with <=2 operations (interfaces <=2) and <=3 operations (interfaces <=1), the 5-letter signature with <=3 operations on <=4 nodes, <=3-4 operations on <=3-4 nodes for sub-signatures".into(),
         assumptions: vec!["values are u64 with wrapping arithmetic".into(), "values of never-written nodes are not demanded (such programs only have to return a result)".into()],
         explanation: "explicit enumeration of programs x inputs against a recursive, numbering-independent reference interpreter; the user callback is instrumented".into(),
     };
